@@ -162,7 +162,8 @@ class _Instr(ast.NodeTransformer):
 
     def visit_If(self, node):
         self.generic_visit(node)
-        node.test = ast.Call(func=ast.Name(id='__ch', ctx=ast.Load()), args=[], keywords=[])
+        # the test is still evaluated (its reads count); its outcome is the next choice
+        node.test = ast.Call(func=ast.Name(id='__ch', ctx=ast.Load()), args=[node.test], keywords=[])
         return node
 
     visit_While = visit_If
@@ -186,7 +187,7 @@ def executions(code, max_choices=7, for_min=0):
         prefix = stack.pop()
         used = [0]
 
-        def ch():
+        def ch(*evaluated):
             k = used[0]
             used[0] += 1
             return prefix[k] if k < len(prefix) else False
@@ -229,13 +230,14 @@ def gen_stmt(rnd, depth):
     k = rnd.choice(kinds)
     if k == 'atom':
         return [rnd.choice(ATOMS + ['a = b', 'b = a'])]
+    cond = rnd.choice(['c', 'c', 'd', 'd', 'a', 'b'])
     if k == 'if':
-        return ['if c:'] + indent(gen_block(rnd, depth + 1))
+        return ['if %s:' % cond] + indent(gen_block(rnd, depth + 1))
     if k == 'ifelse':
-        return ['if c:'] + indent(gen_block(rnd, depth + 1)) + ['else:'] + indent(gen_block(rnd, depth + 1))
+        return ['if %s:' % cond] + indent(gen_block(rnd, depth + 1)) + ['else:'] + indent(gen_block(rnd, depth + 1))
     if k == 'for':
         return ['for i in xs:'] + indent(gen_block(rnd, depth + 1))
-    return ['while d:'] + indent(gen_block(rnd, depth + 1))
+    return ['while %s:' % cond] + indent(gen_block(rnd, depth + 1))
 
 
 def gen_program(rnd):
